@@ -135,10 +135,42 @@ def ulp(x):
     return np.spacing(abs(x)) if x != 0 else 5e-324
 
 
+def wrap_clashing_model(md, stage):
+    """Somebody develops a model of his own starting from a copy of a
+    shipped model file: same function name, another formula, own key. It is
+    wrapped / registered / registered and removed again *after* the shipped
+    models were set up."""
+    import inspect
+    import types
+    from nanite import model as nmodel
+    from nanite.model import core as mcore
+    src = md.module
+    mod = types.ModuleType("verif_clash_" + src.model_key)
+    for att in ("get_parameter_defaults", "parameter_keys",
+                "parameter_names", "parameter_units", "model_doc",
+                "valid_axes_x", "valid_axes_y"):
+        setattr(mod, att, getattr(src, att))
+    mod.model_key = "verif_clash"
+    mod.model_name = "clashing " + src.model_name
+    name = src.model_func.__name__
+    ns = {"np": np}
+    exec(f"def {name}{inspect.signature(src.model_func)}:\n"
+         f"    return np.zeros_like(np.asarray(delta, float)) + 7.0\n", ns)
+    mod.model_func = ns[name]
+    if stage == "clash-wrapped":
+        mcore.NaniteFitModel(mod)
+    else:
+        nmodel.register_model(mod)
+        if stage == "clash-deregistered":
+            nmodel.deregister_model(nmodel.models_available["verif_clash"])
+
+
 def case_fn(case):
     from nanite import model as nmodel
     mk = case["model"]
     md = nmodel.models_available[mk]
+    if case.get("stage"):
+        wrap_clashing_model(md, case["stage"])
     fn = md.module.model_func
     p = dict(case["params"])
     cp, b = case["cp"], case["baseline"]
@@ -147,7 +179,8 @@ def case_fn(case):
     n_contact = 0
 
     def viol(clause, wit, detail):
-        out.append(V(PROP, clause, site=mk, witness=wit, detail=detail,
+        site = mk + (":" + case["stage"] if case.get("stage") else "")
+        out.append(V(PROP, clause, site=site, witness=wit, detail=detail,
                      case=case, kind="grid"))
     P = md.get_parameter_defaults()
     for k_, v_ in dict(p, contact_point=cp, baseline=b).items():
@@ -280,6 +313,12 @@ def all_cases(tier):
                         continue
                     cases.append({"kind": "grid", "model": mk,
                                   "params": params, "cp": cp, "baseline": b})
+        # the shipped formulas after a user model with a clashing function
+        # name was set up in the same process
+        for stage in ("clash-wrapped", "clash-registered",
+                      "clash-deregistered"):
+            cases.append({"kind": "grid", "model": mk, "params": cells[-1],
+                          "cp": cps[1], "baseline": bls[1], "stage": stage})
     return cases
 
 
